@@ -20,16 +20,16 @@ const modPrefix = "mods.irisnet.org/"
 
 // Program is the resolved view of /repo that every rule works on.
 type Program struct {
-	Repo     string
-	Fset     *token.FileSet
-	Pkgs     []*packages.Package          // irismod packages only, sorted by path
-	ByPath   map[string]*packages.Package // all packages in the closure
-	SSA      *ssa.Program
-	SSAPkgs  map[string]*ssa.Package
+	Repo        string
+	Fset        *token.FileSet
+	Pkgs        []*packages.Package          // irismod packages only, sorted by path
+	ByPath      map[string]*packages.Package // all packages in the closure
+	SSA         *ssa.Program
+	SSAPkgs     map[string]*ssa.Package
 	DeferSpills int
-	AllFuncs []*ssa.Function // source functions of irismod packages (incl. anonymous), sorted
-	NPkgAll  int
-	Whole    bool
+	AllFuncs    []*ssa.Function // source functions of irismod packages (incl. anonymous), sorted
+	NPkgAll     int
+	Whole       bool
 }
 
 func copyFile(dst, src string) error {
